@@ -141,7 +141,10 @@ def final_rng(st):
 
 
 PROPS = {}
-NOT_CLAIMED = {}   # property id -> reason, for properties without a check
+NOT_CLAIMED = {   # property id -> reason, for properties without a registered check
+    "C15": "not yet decided: the Lean model of VSS/DKG (lean/Tmcg/Model/Dkg.lean), its harness (harness/drv_dkg.cc, still in harness/WIP) and the proofs exist and agreed with the code on 352 runs, but they are being adapted to the repairs F21-F24 of /repo; no claim is made until the theorems are registered (DESIGN.md 11.2). The technique applies.",
+    "C20": "not yet decided: model, harness (harness/drv_pgpmsg.cc, in harness/WIP) and proofs of CFB/MDC, AEAD chunking, hash inputs and signature validity exist, being adapted to the repairs F18-F20; no claim is made until the theorems are registered (DESIGN.md 11.2). The technique applies.",
+}
 
 PROPS["C07"] = dict(
     module="TmcgProps.C07",
